@@ -25,6 +25,7 @@ type c09Case struct {
 }
 
 type c09Slot struct {
+	tls  bool
 	cl   *lab.Client
 	tag  int
 	id   int // ConnectionID as reported (0 = not yet known)
@@ -47,8 +48,14 @@ func c09Exec(c c09Case, st *lab.Stats) *lab.Fail {
 		mu.Unlock()
 		_ = respondOK(w, r)
 	}
+	pki, _, perr := lab.SharedPKI()
+	if perr != nil {
+		st.Inconclusive(perr.Error())
+		return nil
+	}
 	mux, _ := gldap.NewMux()
 	_ = mux.DefaultRoute(h)
+	_ = mux.ExtendedOperation(lab.StartTLSHandler(pki.ServerTLS()), gldap.ExtendedOperationStartTLS)
 	srv, err := lab.StartServer(mux, lab.ServerOpts{OnClose: func(id int) {
 		mu.Lock()
 		closedIDs[id]++
@@ -158,6 +165,23 @@ func c09Exec(c c09Case, st *lab.Stats) *lab.Fail {
 			if f := request(open[stp.Slot%len(open)], stp.Op); f != nil {
 				return f
 			}
+		case "starttls":
+			// upgrade an open connection: it stays the same connection
+			if len(open) == 0 {
+				continue
+			}
+			s := open[stp.Slot%len(open)]
+			if s.tls {
+				continue
+			}
+			s.next++
+			if err := s.cl.StartTLS(pki.ClientTLS(false), int64(s.tag)*tagStride+s.next); err != nil {
+				return lab.Failf("starttls-failed", "tag %d: %v", s.tag, err)
+			}
+			s.tls = true
+			if f := request(s, "search"); f != nil {
+				return f
+			}
 		case "manyrequests":
 			// a long session: N pipelined requests on one connection
 			if len(open) == 0 {
@@ -229,9 +253,13 @@ func c09Exec(c c09Case, st *lab.Stats) *lab.Fail {
 				_, _, _ = readUntilClosed(s.cl, 10*time.Second)
 				s.cl.Close()
 			case "rst":
-				rst(s.cl.C)
+				rst(rawConn(s.cl.C))
 			default:
-				s.cl.Close()
+				if s.tls {
+					_ = rawConn(s.cl.C).Close()
+				} else {
+					s.cl.Close()
+				}
 			}
 			// wait for this connection's OnClose
 			deadline := time.After(10 * time.Second)
@@ -278,13 +306,13 @@ func c09Exec(c c09Case, st *lab.Stats) *lab.Fail {
 func TestC09(t *testing.T) {
 	lab.Prop[c09Case]{
 		ID: "C09", Part: "ids",
-		Rule: "rapid action sequences (up to 60 steps) over ONE long-lived server: open / open several at once / request (any operation) / long session of 20..300 pipelined requests / concurrent burst on all open connections / close (FIN, RST, Unbind; waits for OnClose), up to 64 connections open at once; model = tag -> ConnectionID map: every request of a connection reports the same positive ID, IDs are pairwise different over the server's whole life (also after closes), OnClose delivers exactly the closed connection's ID, once; non-trivial = the sequence contains a close followed by an open while another connection is still open; distinct by hash",
+		Rule: "rapid action sequences (up to 60 steps) over ONE long-lived server: open / open several at once / request (any operation) / long session of 20..300 pipelined requests / StartTLS upgrade of an open connection / concurrent burst on all open connections / close (FIN, RST, Unbind; waits for OnClose), up to 64 connections open at once; model = tag -> ConnectionID map: every request of a connection reports the same positive ID, IDs are pairwise different over the server's whole life (also after closes), OnClose delivers exactly the closed connection's ID, once; non-trivial = the sequence contains a close followed by an open while another connection is still open; distinct by hash",
 		Gen: func(t *rapid.T) c09Case {
 			var c c09Case
 			n := rapid.IntRange(2, 60).Draw(t, "nsteps")
 			for i := 0; i < n; i++ {
 				s := c09Step{
-					Kind: rapid.SampledFrom([]string{"open", "open", "open", "openmany", "request", "request", "burst", "close", "close", "manyrequests"}).Draw(t, "kind"),
+					Kind: rapid.SampledFrom([]string{"open", "open", "open", "openmany", "request", "request", "burst", "close", "close", "manyrequests", "starttls"}).Draw(t, "kind"),
 					Slot: rapid.IntRange(0, 63).Draw(t, "slot"),
 				}
 				switch s.Kind {
